@@ -255,6 +255,10 @@ class GeckoAsyncSpaMan(ABC, AsyncTasks):
             await self._spa.disconnect()
             self._spa = None
         self._facade = None
+        # The handlers above may have been suspended for a while, and a
+        # discovery may have completed in the meantime. A reset leaves no
+        # descriptors behind, otherwise the sequence pump would never start again
+        self._spa_descriptors = None
         self._spa_state = GeckoSpaState.IDLE
 
     async def async_locate_spas(
